@@ -65,7 +65,7 @@ func (p *Pool) spawn() *worker {
 	self, _ := os.Executable()
 	cmd := exec.Command(self, "worker", "--tier", p.Tier)
 	cmd.Stderr = os.Stderr
-	cmd.Env = append(os.Environ(), "GOMAXPROCS=1")
+	cmd.Env = append(os.Environ(), "GOMAXPROCS=1", "VERIF_TIER_INTERNAL="+p.Tier)
 	in, _ := cmd.StdinPipe()
 	out, _ := cmd.StdoutPipe()
 	if err := cmd.Start(); err != nil {
@@ -275,7 +275,7 @@ func WorkerLoop(tier string, hist func(profile string) *Profile, custom func(pro
 			select {
 			case o := <-done:
 				res.Out, _ = json.Marshal(o)
-			case <-time.After(600 * time.Second):
+			case <-time.After(customTimeout()):
 				res.Hang = true
 			}
 		}
@@ -287,4 +287,13 @@ func WorkerLoop(tier string, hist func(profile string) *Profile, custom func(pro
 			os.Exit(3)
 		}
 	}
+}
+
+// customTimeout is the watchdog of one custom job (structure closures, codec shards, schedule
+// explorations): 10 minutes in the quick tier, 45 in the thorough tier.
+func customTimeout() time.Duration {
+	if os.Getenv("VERIF_TIER_INTERNAL") == "thorough" {
+		return 45 * time.Minute
+	}
+	return 10 * time.Minute
 }
